@@ -234,6 +234,11 @@ impl St {
 
 /// Analyse `text`. Err when the raw parser rejects it or an alias has no recorded anchor.
 pub fn analyze(text: &str) -> Result<Analysis, String> {
+    analyze_capped(text, usize::MAX)
+}
+
+/// Like [`analyze`], but gives up (Err("too big")) once more than `cap` logical events were seen.
+pub fn analyze_capped(text: &str, cap: usize) -> Result<Analysis, String> {
     let mut st = St {
         u: Usage::default(),
         doc: Usage::default(),
@@ -411,6 +416,9 @@ pub fn analyze(text: &str) -> Result<Analysis, String> {
                 let rhit = Hit { raw: false, ..hit };
                 st.doc.replayed_events += buf.len();
                 st.u.replayed_events = st.u.replayed_events.max(st.doc.replayed_events);
+                if st.u.events.saturating_add(buf.len()) > cap {
+                    return Err("too big".into());
+                }
                 for e in &buf {
                     st.logical(e, 0, rhit);
                 }
